@@ -78,6 +78,22 @@ func execRTPAll(data []byte) string {
 	return "loop"
 }
 
+// execRTPSeq iterates Decode with ONE Packet object reused for every step (as a stream reader would).
+func execRTPSeq(data []byte) string {
+	var parts []string
+	cur := fw.Exact(data)
+	pk := jt1078.NewPacket()
+	for steps := 0; steps < 100000; steps++ {
+		rest, err := pk.Decode(cur)
+		if err != nil {
+			return fmt.Sprintf("n=%d %s end=%s", len(parts), strings.Join(parts, ";"), rtpErrClass(err))
+		}
+		parts = append(parts, fmt.Sprintf("%d/%d/%d/%d/%d/%d/%d", pk.Seq, int(pk.DataType), int(pk.SubcontractType), len(pk.Body), pk.Timestamp, int(pk.LastIFrameInterval), int(pk.LastFrameInterval)))
+		cur = rest
+	}
+	return "loop"
+}
+
 func wantRTP(p rtpPkt, rest []byte) string {
 	ts, lifi, lfi := p.ts, p.lifi, p.lfi
 	if p.dt == 4 {
@@ -204,6 +220,30 @@ func genC17(r *fw.Rng, tier string, emit func(fw.Case)) {
 		}
 		emit(fw.Case{Op: "rtpall", Args: []string{fw.Hex(s)}})
 	}
+	// one Packet object reused for a whole stream: video packets (time stamp and both intervals non-zero) followed by
+	// audio / transparent packets and back — nothing of an earlier packet may show in a later one
+	nr := 300
+	if tier == "thorough" {
+		nr = 6000
+	}
+	for i := 0; i < nr; i++ {
+		var stream []byte
+		for j := 0; j < 2+r.Intn(4); j++ {
+			p := randRTP(r)
+			p.dt = []int{0, 1, 2, 3, 4, 3, 4}[(j+i)%7]
+			if r.Chance(20) {
+				p.dt = r.Intn(16)
+			}
+			if p.lifi == 0 {
+				p.lifi = 1 + r.Intn(60000)
+			}
+			if p.lfi == 0 {
+				p.lfi = 1 + r.Intn(60000)
+			}
+			stream = append(stream, encodeRTP(p)...)
+		}
+		emit(fw.Case{Op: "rtpseq", Args: []string{fw.Hex(stream)}})
+	}
 }
 
 func oracleC17(c fw.Case) *fw.OracleFailure {
@@ -231,6 +271,8 @@ var C17 = &fw.Prop{ID: "C17", Gen: genC17, Oracle: oracleC17,
 			return execRTP(fw.UnHex(c.Args[0]))
 		case "rtpall", "rtpallv":
 			return execRTPAll(fw.UnHex(c.Args[0]))
+		case "rtpseq":
+			return execRTPSeq(fw.UnHex(c.Args[0]))
 		}
 		return "bad-op"
 	},
